@@ -386,6 +386,8 @@ def section_secondq():
          sympy.ImmutableMatrix([[a + Dagger(a), 2 * a], [2 * Dagger(a), Na]]), 12, 3, [0, 1]),
         ("matrix-valued, two blocks, the second block of H_0 identically zero", [a], sympy.Matrix([[Na + R(5, 3), 0], [0, 0]]),
          sympy.Matrix([[0, a + 2 * Dagger(a)], [Dagger(a) + 2 * a, 0]]), 12, 3, [0, 1]),
+        ("matrix-valued, excited level first, zero-energy DOUBLET second (the zero block has more levels than its partner)", [a], sympy.Matrix([[Na + R(5, 2), 0, 0], [0, 0, 0], [0, 0, 0]]),
+         sympy.Matrix([[0, a + Dagger(a), 2 * Dagger(a)], [a + Dagger(a), 0, R(1, 2)], [2 * a, R(1, 2), 0]]), 10, 2, [0, 1, 1]),
         ("two-level system with c-number H_0 (zero second block) and operator-valued coupling", [a], sympy.Matrix([[R(7, 3), 0], [0, 0]]),
          sympy.Matrix([[0, a + Dagger(a)], [a + Dagger(a), 0]]), 12, 3, [0, 1]),
     ]
